@@ -13,7 +13,23 @@ def run_simple(prop, spec, tier, known_ids, t0, args):
         mc = spec['mc'](results)
     return G.report(prop, tier, spec['level'], results, spec['rule'], t0, src=spec['src'], model_checking=mc)
 
+def mc_c14(results):
+    st = tr = 0
+    samples = []
+    for r in results:
+        for op in r['ops']:
+            if op['name'].startswith('step-graph'):
+                st += op['nontrivial']; tr += 2 * op['nontrivial']
+            elif op['name'].startswith('n-step'):
+                tr += 2 * op['nontrivial']
+    return {'states': st, 'transitions': tr, 'traces_validated_against_impl': tr,
+            'state_graph_note': 'states = finite float/double bit patterns visited; transitions = nextFloat/prevFloat (and n-step chains) executed on the implementation; every transition is compared with the reference model, so validated == transitions'}
+
 PROPS = {
+ 'C14': dict(src='drivers/c14.cpp', level='model_checking', mc=mc_c14,
+   technique='explicit-state exploration of the float successor graph: every state (all 2^32 float patterns in the thorough tier) has its nextFloat and prevFloat transitions executed on the implementation and checked against integer arithmetic on the IEEE total order',
+   text='States are float bit patterns, transitions are nextFloat/prevFloat; each transition is executed on the real code and validated against the reference model (ordered-integer successor), with the invariants prev(next(x))=x, strict monotonicity and distance 1. Thorough visits all 2^32 float states (2^33 transitions); n-step overloads, floatDistance and ULP/epsilon comparisons (scalar, vec1-4, six matrix shapes, quaternion) are explored on lattices that contain every binade edge, both zeros, subnormals and chains crossing zero.',
+   rule='states: F32_ALL (thorough) / F32_EDGE (quick), F64_EDGE; n-step: states x n in {0,1,2,3,7,64} incl. +-0..79 ulp around zero; ULP comparisons: state x distance {0..4,7,8,63,64,65} x {up,down} x maxULPs {0,1,2,4,64}; epsilon comparisons: SPEC^2 x 10 epsilons. Non-trivial = finite state whose targets stay finite.'),
  'C11': dict(src='drivers/c11.cpp', level='exploration', libs=['-lquadmath'],
    technique='exhaustive enumeration of all 2^32 float bit patterns through every unary common function (thorough; structured 6.6e5-point lattice + all ties quick), complete special-value products for n-ary functions, every constant against __float128',
    text='Unary functions (floor ceil trunc round roundEven fract abs sign isnan isinf frexp/ldexp modf iround uround texcoord wraps, bit casts) are decided for every float bit pattern in the thorough tier and on a lattice containing every binade edge, tie and special value in the quick tier; doubles on the analogous lattice; n-ary functions (min max step fmin fmax mod clamp fclamp mix smoothstep fma, 3-/4-operand forms) on the complete product of a ~77-value special lattice; all 31 constants x {float,double} compared bit-for-bit with quad-precision evaluations.',
